@@ -82,6 +82,21 @@ func init() {
 			m.env = append([]value(nil), variadic(a[0])...)
 			return nil
 		},
+		"vOr": func(m *Machine, fr *frame, fn *ssa.Function, a []value) value {
+			return m.unsym(m.st.Or(m.term(a[0]), m.term(a[1])), types.Bool)
+		},
+		"vAnd": func(m *Machine, fr *frame, fn *ssa.Function, a []value) value {
+			return m.unsym(m.st.And(m.term(a[0]), m.term(a[1])), types.Bool)
+		},
+		"vNoByte": func(m *Machine, fr *frame, fn *ssa.Function, a []value) value {
+			bs, _ := m.strTerms(a[0])
+			c := m.term(a[1])
+			var cs []*sym.Term
+			for _, b := range bs {
+				cs = append(cs, m.st.Not(m.st.Eq(b, c)))
+			}
+			return m.unsym(m.st.And(cs...), types.Bool)
+		},
 		"vIsNative": func(m *Machine, fr *frame, fn *ssa.Function, a []value) value { return false },
 		"vSetTokens": func(m *Machine, fr *frame, fn *ssa.Function, a []value) value {
 			var toks []string
